@@ -173,6 +173,71 @@ def run(ctx, scratch):
         _state_probes(ctx, main, desc, nmax, quick)
         _gnn_validation(ctx, main, nmax, quick)
         _static_facts(ctx)
+        # ---- (f) set_params histories: an object constructed with OTHER parameter values, fitted, then given the target values
+        #      with set_params and refitted must equal an estimator constructed with the target values (a value derived from
+        #      a parameter in __init__ and cached goes stale here; seed C16_6)
+        ALTS = {'modularity': ['dugue', 'newman', 'potts'], 'resolution': [0.5, 1, 2], 'n_components': [2, 3],
+                'damping_factor': [0.5, 0.85], 'n_iter': [2, 5], 'normalized': [True, False], 'regularization': [-1, 0.5],
+                'weighted': [True, False], 'node_order': [None, 'increasing'], 'weights': ['degree', 'uniform'],
+                'n_neighbors': [2, 3], 'factor_singular': [0.0, 0.5], 'solver': ['piteration', 'RH'],
+                'centering': [True, False], 'depth': [2, 3], 'reorder': [True, False]}
+        n_setp = 0
+        tb = main.call('c16', 'toy', dict(name='movie_actor'), timeout=60)
+        toy_bip = tb.get('ok')
+        for name in names:
+            d = desc[name]
+            if not _is_class(name, desc) or d['seeds'] == 'sources' or name.startswith('GNNClassifier'):
+                continue
+            if '[' in name and name not in ('Louvain[dugue]', 'Leiden[dugue]', 'PageRank[piteration]'):
+                continue        # one representative per parametrised family (the bracket only fixes a default value)
+            for pname in [q for q in d.get('init_params', []) if q in ALTS and not (q == 'solver' and '[' in name)]:
+                vals = ALTS[pname]
+                for rep in range(1 if quick else 2):
+                    spec, opts, fam = prepare(rng, name, d, nmax)
+                    if 'bip' in d['kinds'] and rng.random() < 0.6:
+                        # bipartite target input: where the two block forms ([[0,B],[0,0]] vs [[0,B],[B^T,0]]) and the row / column
+                        # outputs make a stale derived value visible
+                        spec_b, nr_b, nc_b, fam_b = cases.make_matrix(rng, 'bip', nmax, weighted=rng.random() < 0.5)
+                        opts_b = cases.make_opts(rng, d, nr_b, nc_b, True)
+                        if d['seeded']:
+                            opts_b.setdefault('params', {})['random_state'] = 7
+                        spec, opts, fam = spec_b, opts_b, fam_b
+                    if pname == 'modularity' and 'bip' in d['kinds'] and rep == 0 and toy_bip is not None:
+                        # a fixed structure-rich biadjacency (movie_actor): the directed and the undirected block forms cluster it
+                        # differently, which small random matrices rarely do
+                        spec = dict(shape=toy_bip['shape'], coo=toy_bip['coo'], dtype='float', fmt='csr')
+                        opts = {'params': {'random_state': 7}} if d['seeded'] else {}
+                        fam = 'toy_movie_actor'
+                    v_old, v_new = rng.sample(vals, 2)
+                    if fam == 'toy_movie_actor':
+                        v_old, v_new = rng.choice([('newman', 'dugue'), ('dugue', 'newman'), ('potts', 'dugue')])
+                    base = dict(opts.get('params', {}))
+                    if pname in base:
+                        continue
+                    tgt = dict(opts, params=dict(base, **{pname: v_new}))
+                    a = main.call('registry', 'run', dict(name=name, m=spec, opts=tgt), timeout=60)
+                    ctx.traces += 1
+                    if 'ok' not in a:
+                        continue
+                    spec0, opts0, _ = prepare(rng, name, d, nmax)
+                    first = dict(m=spec0, opts=dict(opts0, params=dict(base, **{pname: v_old})))
+                    last = dict(m=spec, opts=dict(tgt, set_params={pname: v_new}))
+                    h = main.call('registry', 'run_seq', dict(name=name, steps=[first, last]), timeout=120)
+                    ctx.traces += 1
+                    n_setp += 1
+                    ctx.count(name + ':set_params', (name, pname, repr(v_old), repr(v_new), repr(spec['coo'])), True)
+                    case = dict(name=name, m=spec, opts=tgt, family='set_params', param=pname, old=v_old, new=v_new)
+                    if h.get('err') == 'ValueError' and 'Invalid parameter' in (h.get('msg') or ''):
+                        # set_params only accepts constructor parameters the object stores under their own name; a refused
+                        # parameter is an explicit error, not a refit
+                        ctx.extra['set_params_refused'] = ctx.extra.get('set_params_refused', 0) + 1
+                        continue
+                    if cases.degenerate(main, name, spec, tgt):
+                        ctx.margin_dropped += 1
+                        continue
+                    _cmp(ctx, name, a, h, case, 'set_params', 'estimator constructed with %s=%r, fitted, then set_params(%s=%r) and refitted '
+                         'differs from an estimator constructed with %s=%r' % (pname, v_old, pname, v_new, pname, v_new))
+        ctx.extra['set_params_histories'] = n_setp
         # ---- (e) a large hub graph under 1 and 8 threads: unsynchronised updates of a shared cell by the iterations of a
         #      prange loop only lose updates when many threads hit the same cell at the same moment (seed C16_5: every node
         #      points to 4 hubs; invisible on the small graphs above)
